@@ -75,7 +75,7 @@ impl SubCheck for Clocks {
         "vector_clock_laws"
     }
     fn cases(&self, tier: Tier) -> u32 {
-        tier.pick(60000, 2000000)
+        tier.pick(500000, 10000000)
     }
     fn strategy(&self, _tier: Tier) -> BoxedStrategy<ClockCase> {
         (clock(), clock(), clock(), any::<(u8, u8, u32)>(), any::<(u8, u8, u32)>(), any::<u8>())
@@ -182,7 +182,7 @@ impl SubCheck for Maps {
         "dense_nat_map_laws"
     }
     fn cases(&self, tier: Tier) -> u32 {
-        tier.pick(30000, 600000)
+        tier.pick(250000, 5000000)
     }
     fn strategy(&self, _tier: Tier) -> BoxedStrategy<MapCase> {
         (
